@@ -454,6 +454,30 @@ pub fn gen(out: &mut Out, thorough: bool) {
         }
     }
     out.exhaustive.push("all pairs of 6 boundary characters behind a shared key prefix of every length 0..=40 UTF-16 units (3 prefix compositions)".into());
+    // SCALE: objects of 2^8 / 2^12 (+-1, 5000; thorough 2^16) members in descending and interleaved
+    // order with keys on both sides of the UTF-16 / code point divergence; keys longer than 2^12 / 2^16
+    // sharing everything but the end; numbers with that many digits
+    {
+        let mut n = 0u64;
+        for &cnt in (if thorough { &[255usize, 256, 257, 4095, 4096, 4097, 5000, 65537][..] } else { &[257usize, 4097, 5000][..] }) {
+            let mut o = Object::new();
+            for i in (0..cnt).rev() {
+                let k = match i % 4 { 0 => format!("{}{}", '\u{e000}', i), 1 => format!("{}{}", '\u{10000}', i), 2 => format!("k{}", i), _ => format!("{}{}{}", '\u{ffff}', i, '\u{10ffff}') };
+                o.push(k.as_str().into(), if i % 97 == 0 { Value::Number(json_syntax::NumberBuf::new(format!("{}.0e1", i).into_bytes().into()).unwrap()) } else { Value::Null });
+            }
+            l(request_for(&Value::Object(o.clone())), out);
+            l(request_for(&Value::Array(vec![Value::Object(o), Value::Boolean(true)])), out);
+            let long = "p".repeat(cnt);
+            let mut o2 = Object::new();
+            for tail in ["\u{e000}", "\u{10000}", "z", "", "\u{ffff}", "a"] { o2.push(format!("{}{}", long, tail).as_str().into(), Value::Null); }
+            l(request_for(&Value::Object(o2)), out);
+            for num in [format!("1{}", "0".repeat(cnt.min(300))), format!("0.{}1", "0".repeat(cnt.min(300))), format!("1.{}5e{}", "3".repeat(cnt), 3), format!("{}e-{}", "9".repeat(cnt), cnt)] {
+                if let Ok(b) = json_syntax::NumberBuf::new(num.into_bytes().into()) { l(request_for(&Value::Array(vec![Value::Number(b)])), out); n += 1; }
+            }
+            n += 3;
+        }
+        out.count_n("scale_values", n);
+    }
     // generated I-JSON values
     let m = if thorough { 300000 } else { 5000 };
     for i in 0..m {
